@@ -228,10 +228,11 @@ def link_group(d, gid, group, wild):
     emu = [] if rec0["arch"] == "x86_64" else ["-m", "aarch64linux"]
     base = emu + [str(o), "--no-gc-sections"] + defsym
     res = {}
-    linkers = [("wild", None), ("lld", ["ld.lld"])] + ([("ld", ["ld"])] if rec0["arch"] == "x86_64" else [])
+    # tiny links: a 16-thread pool per process only costs start-up time
+    linkers = [("wild", None), ("lld", ["ld.lld", "--threads=1"])] + ([("ld", ["ld"])] if rec0["arch"] == "x86_64" else [])
     for who, cmd in linkers:
         out = d / f"g{gid}.{who}"
-        args = base + ["-o", str(out)]
+        args = base + ["-o", str(out)] + (["--threads=2"] if cmd is None else [])
         r = run_wild(args, timeout=120, wild=wild) if cmd is None else sh(cmd + args, timeout=120)
         if r.timed_out or (cmd is not None and r.rc < 0):
             # a tiny link that does not finish in 2 minutes (or a crashing reference) says nothing about
